@@ -116,6 +116,8 @@ def show(t, depth=0):
             out.append("  " * d + "<!DOCTYPE %s %r %r>" % (dec(x["n"]), dec(x["p"]), dec(x["s"])))
         elif x["k"] == "doc":
             out.append("  " * d + "#document")
+        elif x["k"] == "content":     # template contents (intended model only: html5lib has no template support)
+            out.append("  " * d + "content")
         else:
             out.append("  " * d + "<%s%s%s>" % ("" if x["ns"] == "html" else x["ns"] + ":", dec(x["n"]),
                                              "".join(" %s%s=%r" % (a[0] + ":" if a[0] else "", dec(a[1]), dec(a[2])) for a in x["a"])))
